@@ -267,6 +267,24 @@ class C12(Prop):
             if mask.any():
                 if not close(y(z.assign(zv)), y0 + Y @ zv):
                     return fail('y(z.assign)', y(z.assign(zv)), y0 + Y @ zv)
+                if nz >= 2:
+                    # realisations given for a slice (the other components stay 0) and for two slices in one call
+                    k_ = nz // 2
+                    want_ = y0 + Y[:, :k_] @ zv[:k_]
+                    try:
+                        got_ = y(z[:k_].assign(zv[:k_]))
+                    except Exception as ex:      # raising is allowed by the statement; a wrong number is not
+                        got_ = None
+                        labels.append('slice_assign_raises')
+                    if got_ is not None and not close(got_, want_):
+                        return fail('y(z[:k].assign)', got_, want_)
+                    try:
+                        got_ = y(z[k_:].assign(zv[k_:]), z[:k_].assign(zv[:k_]))
+                    except Exception as ex:
+                        got_ = None
+                    if got_ is not None and not close(got_, y0 + Y @ zv):
+                        return fail('y(z[k:].assign, z[:k].assign)', got_, y0 + Y @ zv)
+                    labels.append('slice_assign')
                 e = 2 * y[0] + (xf[0] * z).sum() - 1
                 wv = 2 * (y0[0] + Y[0] @ zv) + Vf[0] * zv.sum() - 1
                 if not close(e(z.assign(zv)), wv):
